@@ -20,6 +20,7 @@ from props import c06 as base
 from props import c07 as hd
 
 LEAN_MODULE = "Optyx.Props.C18"
+EXTRA_MODULES = ["Optyx.Props.PinsC18"]   # transcription anchors (harness/source_pins.py)
 THEOREMS = [
     "Optyx.Props.C18.integrality_guard_strict",
     "Optyx.Props.C18.integrality_guard_warns",
@@ -28,6 +29,7 @@ THEOREMS = [
     "Optyx.Props.C18.views_share_elements",
     "Optyx.Props.Dispatch.solve_autoSelect_eq_generated",
     "Optyx.Props.Dispatch.solve_route_eq_generated",
+    "Optyx.Props.PinsC18.anchors",
 ]
 ASSUMPTIONS = [
     "bounds / domain attributes are not reassigned after construction (binary_bounds is about construction routes)",
